@@ -186,4 +186,19 @@ PROPS = {
                         "status bits, flush targets, nextreq/flushreqs and the take order with the model's state",
                         "the implementation answers or flushes only requests it was handed (harness implementation does)"],
     },
+    "C19": {
+        "race": True,
+        "rule": "race-detector build of the harness: 2..8 goroutines sharing one client against Ufs on a scratch tree (each on its own files and "
+                "fids, all walks from the shared root fid, a file everybody reads), flushes with live targets on distinct fids with and "
+                "without FlushOp, connections opened and dropped (quiescent) while another stays busy, schedule perturbation at the "
+                "library's schedule points; every detector report with a library frame is a failure (signature: the racing functions). "
+                "Static half: lock sets of every field access regenerated from the syntax tree and checked against the policy in Lean. "
+                "non-trivial = distinct workloads",
+        "modelled": ["modelled, not verified: the happens-before order of the Go memory model is represented by lock hand-off only "
+                     "(G9.LockSet); channel operations, goroutine creation and sync.Once-style initialisation order the exempted and "
+                     "unlisted accesses and are argued in lean/G9/Locks.lean, not proved",
+                     "the must-hold lock sets are computed syntactically per function body (extract/lockfacts.go); calls are not followed"],
+        "assumptions": ["extract/lockfacts.go reports the locks really held (trusted translator; its output is also what the race workloads exercise)",
+                        "fields outside the policy are confined to one goroutine at a time by C19's premise (different fids) or written before sharing"],
+    },
 }
